@@ -139,6 +139,18 @@ def build_drive(d, device, options):
         eps = 1.0
     elif e["kind"] == "const":
         eps = float(e["value"])
+    elif e["kind"] in ("spatial", "spatial_novec", "time") and e.get("L", 1.0) != 1.0:
+        # the same physical function of position when the coordinates are given in other length units
+        L = float(e["L"])
+        if e["kind"] == "spatial":
+            def eps(r, *, vectorized=True, _L=L):
+                return eps_spatial_vec(np.atleast_2d(r) / _L)
+        elif e["kind"] == "spatial_novec":
+            def eps(r, _L=L):
+                return eps_spatial_novec((r[0] / _L, r[1] / _L))
+        else:
+            def eps(r, *, t, vectorized=True, _L=L):
+                return eps_time_vec(np.atleast_2d(r) / _L, t=t)
     elif e["kind"] == "spatial":
         eps = eps_spatial_vec
     elif e["kind"] == "spatial_novec":
